@@ -283,6 +283,10 @@ Step ==
   \/ \E v \in Honest, r \in 1..MaxRound, t \in Blocks : AcceptCommit(v, r, t, BestCommit(v, r, t))
   \/ \E v \in Honest : NextRound(v)
 
+(* every honest precommit of the round that v can check, WHATEVER fork it is on: a commit *)
+(* for t carrying them must be refused when too few of them are for t or its descendants *)
+AnyForkCommit(v, r) == {<<x.w, x.b>> : x \in {y \in sentPC : y.r = r /\ y.b \in known[v]}}
+
 (* the heaviest commit minus one entry, when that makes it fall short *)
 ShortCommits(v, r, t) == {BestCommit(v, r, t) \ {x} : x \in BestCommit(v, r, t)}
 
@@ -323,6 +327,11 @@ Candidates ==
   \cup UNION {{[a |-> "AcceptCommit", v |-> v, b |-> rt[2], D |-> {}, r |-> rt[1]] : rt \in {x \in (1..MaxRound) \X Blocks : CommitOK(v, x[1], x[2])}} : v \in Honest}
   \cup UNION {{[a |-> "RejectCommit", v |-> v, b |-> rt[2], D |-> RandomElement(ShortCommits(v, rt[1], rt[2])), r |-> rt[1]] :
                    rt \in {x \in (1..MaxRound) \X Blocks : CommitOK(v, x[1], x[2]) /\ CommitWeight(x[2], BestCommit(v, x[1], x[2])) = CommitMin}} : v \in Honest}
+  \cup UNION {{[a |-> "RejectCommit", v |-> v, b |-> rt[2], D |-> AnyForkCommit(v, rt[1]), r |-> rt[1]] :
+                   rt \in {x \in (1..MaxRound) \X Blocks : x[1] \notin DOMAIN finR[v] /\ x[2] \in known[v] /\ x[2] # bsHead[v]
+                                                         /\ IsDesc(bsHead[v], x[2])
+                                                         /\ AnyForkCommit(v, x[1]) # {}
+                                                         /\ CommitWeight(x[2], AnyForkCommit(v, x[1])) < CommitMin}} : v \in Honest}
   \cup {[a |-> "NextRound", v |-> v, b |-> 0, D |-> {}, r |-> 0] :
            v \in {x \in Honest : Completable(x) /\ (IF HighestRound(x) > round[x] THEN HighestRound(x) ELSE round[x]) + 1 <= MaxRound}}
 Exec(c) ==
